@@ -141,6 +141,59 @@ func build2(n int, f func(int64) func([]int64) []int64) func([]int64) []int64 {
 	panic("arity")
 }
 
+func build5(n int, f func(int64) func(float64) float64) func(float64) float64 {
+	switch n {
+	case 2:
+		return pipe.Pipe(f(1), f(2))
+	case 3:
+		return pipe.Pipe3(f(1), f(2), f(3))
+	case 4:
+		return pipe.Pipe4(f(1), f(2), f(3), f(4))
+	case 5:
+		return pipe.Pipe5(f(1), f(2), f(3), f(4), f(5))
+	case 6:
+		return pipe.Pipe6(f(1), f(2), f(3), f(4), f(5), f(6))
+	case 7:
+		return pipe.Pipe7(f(1), f(2), f(3), f(4), f(5), f(6), f(7))
+	case 8:
+		return pipe.Pipe8(f(1), f(2), f(3), f(4), f(5), f(6), f(7), f(8))
+	case 9:
+		return pipe.Pipe9(f(1), f(2), f(3), f(4), f(5), f(6), f(7), f(8), f(9))
+	case 10:
+		return pipe.Pipe10(f(1), f(2), f(3), f(4), f(5), f(6), f(7), f(8), f(9), f(10))
+	case 11:
+		return pipe.Pipe11(f(1), f(2), f(3), f(4), f(5), f(6), f(7), f(8), f(9), f(10), f(11))
+	case 12:
+		return pipe.Pipe12(f(1), f(2), f(3), f(4), f(5), f(6), f(7), f(8), f(9), f(10), f(11), f(12))
+	case 13:
+		return pipe.Pipe13(f(1), f(2), f(3), f(4), f(5), f(6), f(7), f(8), f(9), f(10), f(11), f(12), f(13))
+	case 14:
+		return pipe.Pipe14(f(1), f(2), f(3), f(4), f(5), f(6), f(7), f(8), f(9), f(10), f(11), f(12), f(13), f(14))
+	case 15:
+		return pipe.Pipe15(f(1), f(2), f(3), f(4), f(5), f(6), f(7), f(8), f(9), f(10), f(11), f(12), f(13), f(14), f(15))
+	case 16:
+		return pipe.Pipe16(f(1), f(2), f(3), f(4), f(5), f(6), f(7), f(8), f(9), f(10), f(11), f(12), f(13), f(14), f(15), f(16))
+	case 17:
+		return pipe.Pipe17(f(1), f(2), f(3), f(4), f(5), f(6), f(7), f(8), f(9), f(10), f(11), f(12), f(13), f(14), f(15), f(16), f(17))
+	case 18:
+		return pipe.Pipe18(f(1), f(2), f(3), f(4), f(5), f(6), f(7), f(8), f(9), f(10), f(11), f(12), f(13), f(14), f(15), f(16), f(17), f(18))
+	case 19:
+		return pipe.Pipe19(f(1), f(2), f(3), f(4), f(5), f(6), f(7), f(8), f(9), f(10), f(11), f(12), f(13), f(14), f(15), f(16), f(17), f(18), f(19))
+	case 20:
+		return pipe.Pipe20(f(1), f(2), f(3), f(4), f(5), f(6), f(7), f(8), f(9), f(10), f(11), f(12), f(13), f(14), f(15), f(16), f(17), f(18), f(19), f(20))
+	}
+	panic("arity")
+}
+
+// family 5: float64 values (x -> x/2 + i): arguments and all intermediate values are dyadic rationals with at most
+// 22 binary places, so the arithmetic is exact; the result is reported multiplied by 2^24
+func run5(n int, x float64) int64 {
+	p := build5(n, func(i int64) func(float64) float64 {
+		return func(v float64) float64 { return v/2 + float64(i) }
+	})
+	return int64(p(x) * (1 << 24))
+}
+
 func run2(n int, l []int64) []int64 { return build2(n, f2)(l) }
 
 // family 4: stage (n+1)/2, when reached in the outermost call, calls the very pipeline it belongs to on another
@@ -223,7 +276,7 @@ func main() {
 	enc := json.NewEncoder(os.Stdout)
 	for n := 2; n <= 20; n++ {
 		for k := 0; k < per; k++ {
-			for fam := 0; fam <= 4; fam++ {
+			for fam := 0; fam <= 5; fam++ {
 				c := Case{Arity: n, Fam: fam}
 				switch fam {
 				case 0:
@@ -251,6 +304,11 @@ func main() {
 						c.Input = []int64{-7}
 						c.Observed = run3(n, []int64{-7})
 					}
+				case 5:
+					// quarters in [-64, 64): negative and fractional values
+					q := rng.Int63n(512) - 256
+					c.Input = []int64{q}
+					c.Observed = []int64{run5(n, float64(q)/4)}
 				case 4:
 					l := []int64{}
 					for j := 0; j < k%3; j++ {
